@@ -521,7 +521,10 @@ Lemma text_merge_unflagged o b t ot rs ls :
   has_conflict rs = false /\ ls = clean_lines b t ot rs.
 Proof.
   unfold text_merge. destruct (o_show_base o && o_reprocess o); [discriminate|].
-  intros H. injection H as Hls Hf.
+  intros H. cbv zeta in H.
+  set (raw := merge_lines START (o_show_base o) (newline_of t) b t ot rs) in *.
+  assert (Hf : existsb (prefixb START) raw = false) by congruence.
+  assert (Hls : map post_line raw = ls) by congruence. clear H. unfold raw in *. clear raw.
   assert (Hc : has_conflict rs = false).
   { destruct (has_conflict rs) eqn:E; [|reflexivity].
     rewrite (conflict_flagged (o_show_base o) b t ot (newline_of t) rs E) in Hf. discriminate. }
